@@ -99,14 +99,12 @@ static void audit(const char *after, mpt::config::root &root)
 		render(pbuf, x, sep);
 		mpt::path p(pbuf, sep, 0);
 		const char *got = 0;
-		mpt::convertable *conv = 0;
-		/* value through the generic getter */
+		/* value through the generic getter (string form) */
 		vf_at("config::get");
-		bool ok = root.get(p, conv);
+		bool ok = root.get(p, got);
 		vf_count("config::get", 1);
-		if (ok && conv) got = conv->string();
 		if (x->hasval) {
-			VF_CHECK(ok && conv, "model:query:value-missing", "after %s: get('%s') failed, model holds a value of %zu bytes", after, show(x), x->vlen);
+			VF_CHECK(ok, "model:query:value-missing", "after %s: get('%s') failed, model holds a value of %zu bytes", after, show(x), x->vlen);
 			VF_CHECK(got != 0, "model:query:value-null", "after %s: value of '%s' has no string form", after, show(x));
 			size_t gl = strlen(got);
 			VF_CHECK(gl == x->vlen && !memcmp(got, x->val, gl), "model:query:value-differs",
@@ -147,7 +145,7 @@ static size_t gen_value(vf_rng *r, char *dst)
 	return l;
 }
 
-extern "C" uint64_t vf_cases(void) { return vf_thorough ? 300000 : 8000; }
+extern "C" uint64_t vf_cases(void) { return vf_thorough ? 300000 : 16000; }
 
 static void history(vf_rng *r)
 {
@@ -202,7 +200,7 @@ static void history(vf_rng *r)
 			vf_at("config::set");
 			vf_count("config::set:assign", 1);
 			if (x->hasval) { overw++; vf_count("state:overwrite", 1); }
-			if (vl >= 255) vf_count("state:long-value", 1);
+			if (vl >= 250) vf_count("state:long-value", 1);
 			vf_fp(val, vl);
 			bool ok = root.set(pbuf, val, sep);
 			VF_CHECK(ok, "model:assign:refused", "%s failed", what);
@@ -214,7 +212,8 @@ static void history(vf_rng *r)
 			size_t vl = gen_value(r, val);
 			mpt::path p(pbuf, sep, 0);
 			mpt::value v;
-			v = static_cast<const char *>(val);
+			const char *vp = val;
+			v = vp;
 			snprintf(what, sizeof(what), "assign('%s', %zu bytes, sep '%c')", show(x), vl, sep);
 			vf_log("%s", what);
 			vf_at("config::root::assign");
